@@ -627,7 +627,7 @@ def run_opens(ck, only_round=None, only_op=None, verbose=False):
                                            "how": "python3 tools/check.py C10 --replay <this file> rebuilds the file set and re-runs the operation"},
                                      what)
                     # correspondence: companions
-                    if mo is not None and phase == "load" and not viol:
+                    if mo is not None and phase == "load" and (not viol or op.fmt in ("flt", "mfp")):
                         if op.fmt in ("flt", "mfp") and (len(op.modpath) + 3 < 1024 or op.fmt == "mfp"):
                             want = m.get(op.fmt, [])
                             seen = [p for p in obs["opened"]]
